@@ -57,7 +57,7 @@ class Names:
 
 
 # ---------------------------------------------------------------------------- AST constructors
-def Num(x): return ("ENum", float(x))
+def Num(x, spelling=None): return ("ENum", float(x), spelling) if spelling else ("ENum", float(x))
 def Str(s): return ("EStr", s)
 def Var(x): return ("EVar", x)
 def Arr(items): return ("EArr", list(items))
@@ -129,7 +129,7 @@ class Renderer:
     def _expr(self, e):
         k = e[0]
         if k == "ENum":
-            return num_literal(e[1]), 8
+            return (e[2] if len(e) > 2 and e[2] else num_literal(e[1])), 8
         if k == "EStr":
             return "“" + e[1] + "”", 8
         if k == "EVar":
